@@ -66,6 +66,52 @@ func reqURL(tb *model.Table, path string) *url.URL {
 	return &url.URL{Path: path}
 }
 
+// wireForms gives request-line spellings of path that decode to it but are not the canonical escaping: the last (and
+// the first) ASCII letter or digit written as %XX, and the canonical escapes in lower-case hex.
+func wireForms(path string) []string {
+	esc := (&url.URL{Path: path}).EscapedPath()
+	var out []string
+	alnum := func(c byte) bool { return (c >= 'a' && c <= 'z') || (c >= 'A' && c <= 'Z') || (c >= '0' && c <= '9') }
+	first, last := -1, -1
+	for i := 0; i < len(esc); i++ {
+		if esc[i] == '%' {
+			i += 2
+			continue
+		}
+		if alnum(esc[i]) {
+			if first < 0 {
+				first = i
+			}
+			last = i
+		}
+	}
+	for _, i := range []int{last, first} {
+		if i >= 0 {
+			out = append(out, esc[:i]+fmt.Sprintf("%%%02X", esc[i])+esc[i+1:])
+		}
+	}
+	if strings.Contains(esc, "%") {
+		b := []byte(esc)
+		for i := 0; i+2 < len(b); i++ {
+			if b[i] == '%' {
+				b[i+1], b[i+2] = lowerHex(b[i+1]), lowerHex(b[i+2])
+				i += 2
+			}
+		}
+		if string(b) != esc {
+			out = append(out, string(b))
+		}
+	}
+	return out
+}
+
+func lowerHex(c byte) byte {
+	if c >= 'A' && c <= 'F' {
+		return c + 'a' - 'A'
+	}
+	return c
+}
+
 func copyPs(ps rux.Params) map[string]string {
 	m := map[string]string{}
 	for k, v := range ps {
@@ -134,6 +180,23 @@ func checkProbe(r *rux.Router, s *seen, tb *model.Table, method, path string, ta
 		}
 		if !reflect.DeepEqual(s.params, got) {
 			return fmt.Sprintf("handler saw Params %v, Match reported %v: %s", s.params, got, ctx)
+		}
+		// the same request as it comes off the wire when the client escaped more than it had to (an unreserved character
+		// written as %XX, lower-case hex digits): net/url then keeps the wire form in URL.RawPath beside the decoded
+		// URL.Path.  Without UseEncodedPath the router works on the decoded path: same route, same parameter values
+		if !tb.Opts.EncodedPath {
+			for _, raw := range wireForms(path) {
+				u, err := url.ParseRequestURI(raw)
+				if err != nil || u.Path != path || u.RawPath == "" {
+					continue
+				}
+				s.n = 0
+				r.ServeHTTP(httptest.NewRecorder(), &http.Request{Method: method, URL: u, RequestURI: raw, Header: http.Header{}})
+				if s.n != 1 || s.name != d.Name() || !reflect.DeepEqual(s.params, got) {
+					return fmt.Sprintf("request line %q (URL.Path %q, RawPath %q): handler of %q ran %d times with Params %v, the decoded path alone gives %v: %s", raw, u.Path, u.RawPath, s.name, s.n, s.params, got, ctx)
+				}
+				ev.Class("request-with-needless-escapes-in-the-request-line(RawPath set, UseEncodedPath off)")
+			}
 		}
 		// the same request arriving for /pre<path> and handed on by http.StripPrefix: the router sees <path> in the
 		// request's URL (RequestURI still says /pre<path>, as a server sets it) - same route, same parameters
